@@ -492,7 +492,9 @@ class SSHConfig:
         :param dict config: the currently parsed config
         :param str hostname: the hostname whose config is being looked up
         """
-        for k in config:
+        # Expand HostName first: the %h of every other option refers to its
+        # expanded value, whatever the order the options were obtained in.
+        for k in sorted(config, key=lambda k: k != "hostname"):
             if config[k] is None:
                 continue
             tokenizer = partial(self._tokenize, config, target_hostname, k)
